@@ -98,8 +98,21 @@ Inductive fault :=
   | FKill (at_ : nat)           (* the process dies before its [at_]-th system call (0-based) *)
   | FErr (at_ : nat) (e : errno). (* that call fails with e *)
 
-(* run writer 0 of [ws] alone under a fault; returns the trace (oldest first) as well *)
-Fixpoint run_fault (fuel : nat) (n : nat) (flt : fault) (env : wenv) (f : fs) (pc : wpc) (log : list ev)
+(* [xdev]: the staging directory lies on another file system than the shard directories (a symlink
+   or a mount).  Nothing changes for create / write / close / unlink; a rename that would otherwise
+   succeed is refused by the kernel with EXDEV and has no effect — an instance of "this step fails"
+   ([SFail]), so the theorems cover it. *)
+Definition sys_exec_x (xdev : bool) (f : fs) (s : sysc) : fs * res errno rv :=
+  let '(f1, r) := sys_exec f s in
+  if xdev then
+    match s, r with
+    | SRename _ _, Ok _ => (f, Err EXDEV)
+    | _, _ => (f1, r)
+    end
+  else (f1, r).
+
+(* run one writer alone under a fault; returns the trace (oldest first) as well *)
+Fixpoint run_fault (xdev : bool) (fuel : nat) (n : nat) (flt : fault) (env : wenv) (f : fs) (pc : wpc) (log : list ev)
   : fs * wpc * list ev :=
   match fuel with
   | O => (f, pc, rev log)
@@ -109,14 +122,14 @@ Fixpoint run_fault (fuel : nat) (n : nat) (flt : fault) (env : wenv) (f : fs) (p
     | Some s =>
         match flt with
         | FKill k => if Nat.eqb k n then (f, pc, rev log)
-                     else let '(f1, r) := sys_exec f s in
-                          run_fault fu (S n) flt env f1 (w_step env pc r) ((s, r) :: log)
+                     else let '(f1, r) := sys_exec_x xdev f s in
+                          run_fault xdev fu (S n) flt env f1 (w_step env pc r) ((s, r) :: log)
         | FErr k e => if Nat.eqb k n
-                      then run_fault fu (S n) flt env f (w_step env pc (Err e)) ((s, Err e) :: log)
-                      else let '(f1, r) := sys_exec f s in
-                           run_fault fu (S n) flt env f1 (w_step env pc r) ((s, r) :: log)
-        | FNone => let '(f1, r) := sys_exec f s in
-                   run_fault fu (S n) flt env f1 (w_step env pc r) ((s, r) :: log)
+                      then run_fault xdev fu (S n) flt env f (w_step env pc (Err e)) ((s, Err e) :: log)
+                      else let '(f1, r) := sys_exec_x xdev f s in
+                           run_fault xdev fu (S n) flt env f1 (w_step env pc r) ((s, r) :: log)
+        | FNone => let '(f1, r) := sys_exec_x xdev f s in
+                   run_fault xdev fu (S n) flt env f1 (w_step env pc r) ((s, r) :: log)
         end
     end
   end.
